@@ -293,12 +293,31 @@ func parseText(out string) (items []map[string]interface{}) {
 var reUnres = regexp.MustCompile(`could not resolve label '(.*)'`)
 var reRange = regexp.MustCompile(`branch from (0x[0-9a-f]+|0) to (0x[0-9a-f]+|0) too far`)
 
+var reWord = regexp.MustCompile(`[A-Za-z_][A-Za-z_0-9]*`)
+var reNum = regexp.MustCompile(`(?i)(0x|\$)([0-9a-f]+)|\b([0-9]+)\b`)
+
 func parseFinalizeErr(err error) map[string]interface{} {
-	o := map[string]interface{}{"class": "none", "label": "", "from": 0, "to": 0, "text": ""}
+	o := map[string]interface{}{"class": "none", "label": "", "from": 0, "to": 0, "text": "", "words": []string{}, "nums": []int{}}
 	if err == nil {
 		return o
 	}
 	o["text"] = err.Error()
+	// fallback for wordings the two patterns below do not know: every identifier and every number the message mentions
+	words := reWord.FindAllString(err.Error(), -1)
+	if words == nil {
+		words = []string{}
+	}
+	nums := []int{}
+	for _, m := range reNum.FindAllStringSubmatch(err.Error(), -1) {
+		if m[2] != "" {
+			if v, e := strconv.ParseInt(m[2], 16, 64); e == nil && v < 1<<31 {
+				nums = append(nums, int(v))
+			}
+		} else if v, e := strconv.ParseInt(m[3], 10, 64); e == nil && v < 1<<31 {
+			nums = append(nums, int(v))
+		}
+	}
+	o["words"], o["nums"] = words, nums
 	if m := reUnres.FindStringSubmatch(err.Error()); m != nil {
 		o["class"], o["label"] = "unresolved", m[1]
 		return o
@@ -486,9 +505,11 @@ func decodeEvent(method string, code []byte, flags uint8) map[string]interface{}
 // ---------------------------------------------------------------------------------------------
 
 type emitExec struct {
-	w   *bufio.Writer
-	n   int
-	ems map[int]*asm.Emitter
+	w           *bufio.Writer
+	n           int
+	ems         map[int]*asm.Emitter
+	twinOK      bool
+	lastRefused bool
 }
 
 func (x *emitExec) emit(ev map[string]interface{}) {
@@ -520,6 +541,9 @@ func (x *emitExec) doCall(id int, c callT) {
 	e := x.ems[id]
 	before := e.VerifState()
 	pan, ret := invoke(e, c)
+	if id != 2 {
+		x.lastRefused = pan != ""
+	}
 	after := e.VerifState()
 	ev := map[string]interface{}{"k": "call", "id": id, "m": c.M, "a": c.A, "refused": pan != "", "ret": 0}
 	if c.A == nil {
@@ -557,6 +581,18 @@ func (x *emitExec) run(sc scenarioT) {
 		x.ems[2] = newEmitter(-1, sc.Gen)
 		x.emit(map[string]interface{}{"k": "new", "id": 2, "cap": -1, "gen": sc.Gen})
 	}
+	// C16, stated on real objects: a DIRECT twin (id 3, no events of its own) receives the whole call sequence without
+	// Clone/Append; after the Append (and after Finalize, and at the end) everything observable through the public API
+	// must be the same on both.  The comparison is dropped when a call was accepted by one and refused by the other
+	// (the clone's own capacity) or the Append was refused.
+	x.twinOK = false
+	for _, c := range sc.Calls {
+		if c.M == "Clone" {
+			x.ems[3] = newEmitter(sc.Cap, sc.Gen)
+			x.twinOK = true
+		}
+	}
+	appended := false
 	cur := 0
 	var lastM string
 	var lastBytes []byte
@@ -582,6 +618,12 @@ func (x *emitExec) run(sc scenarioT) {
 			x.emit(map[string]interface{}{"k": "append", "id": 0, "from": 1, "refused": pan != ""})
 			x.stateEvent(0, "append")
 			cur = 0
+			if pan != "" {
+				x.twinOK = false
+			}
+			appended = true
+			x.twinEvent("append", "", "")
+			x.listingEvents(0, "append")
 		case "State":
 			for _, id := range []int{0, 1, 2} {
 				if x.ems[id] != nil {
@@ -603,6 +645,24 @@ func (x *emitExec) run(sc scenarioT) {
 				ev["err"] = map[string]interface{}{"class": "panic", "label": "", "from": 0, "to": 0, "text": pan}
 			}
 			x.emit(ev)
+			if x.ems[3] != nil {
+				var err3 error
+				pan3 := guard(func() { err3 = x.ems[3].Finalize() })
+				cls := func(p string, e error) string {
+					if p != "" {
+						return "panic"
+					}
+					if e != nil {
+						return "error"
+					}
+					return "none"
+				}
+				if appended {
+					x.twinEvent("finalize", cls(pan, err), cls(pan3, err3))
+				} else if cls(pan, err) != "none" || cls(pan3, err3) != "none" {
+					x.twinOK = false
+				}
+			}
 		case "Hex", "Text":
 			id := 0
 			if !x.ems[0].VerifState().HasTarget {
@@ -622,7 +682,7 @@ func (x *emitExec) run(sc scenarioT) {
 			})
 			after := e.VerifState()
 			changed := !reflect.DeepEqual(before, after) || !bytes.Equal(codeBefore, e.Bytes())
-			ev := map[string]interface{}{"id": id, "panic": pan != "" || err != nil, "changed": changed}
+			ev := map[string]interface{}{"id": id, "panic": pan != "" || err != nil, "changed": changed, "code": ints(e.Bytes())}
 			if c.M == "Hex" {
 				items, all := parseHex(buf.String())
 				ev["k"], ev["items"], ev["allbytes"] = "hex", items, all
@@ -655,6 +715,12 @@ func (x *emitExec) run(sc scenarioT) {
 			if sc.Dry && cur == 0 {
 				x.doCall(2, c)
 			}
+			if x.ems[3] != nil {
+				pan3, _ := invoke(x.ems[3], c)
+				if (pan3 != "") != x.lastRefused {
+					x.twinOK = false
+				}
+			}
 			if !emitted {
 				s := x.ems[0].VerifState()
 				if s.N > 0 {
@@ -663,6 +729,12 @@ func (x *emitExec) run(sc scenarioT) {
 					m0, x0 = int(s.Flags>>5)&1, int(s.Flags>>4)&1
 				}
 			}
+		}
+	}
+	if cur == 0 {
+		x.listingEvents(0, map[bool]string{true: "append", false: "end"}[appended])
+		if appended {
+			x.twinEvent("end", "", "")
 		}
 	}
 	x.run_end()
@@ -674,6 +746,74 @@ func (x *emitExec) run_end() {
 			x.stateEvent(id, "end")
 		}
 	}
+}
+
+// both listings of emitter id as parsed events (the public output is what C15 / C16 speak about)
+func (x *emitExec) listingEvents(id int, after string) {
+	e := x.ems[id]
+	if e == nil || !e.VerifState().HasTarget {
+		return
+	}
+	for _, kind := range []string{"hex", "text"} {
+		before := e.VerifState()
+		codeBefore := append([]byte(nil), e.Bytes()...)
+		var buf bytes.Buffer
+		var err error
+		pan := guard(func() {
+			if kind == "hex" {
+				err = e.WriteHexTo(&buf)
+			} else {
+				err = e.WriteTextTo(&buf)
+			}
+		})
+		changed := !reflect.DeepEqual(before, e.VerifState()) || !bytes.Equal(codeBefore, e.Bytes())
+		ev := map[string]interface{}{"k": kind, "id": id, "panic": pan != "" || err != nil, "changed": changed, "code": ints(e.Bytes()), "after": after}
+		if kind == "hex" {
+			items, all := parseHex(buf.String())
+			ev["items"], ev["allbytes"] = items, all
+		} else {
+			ev["items"], ev["allbytes"] = parseText(buf.String()), []int{}
+		}
+		x.emit(ev)
+	}
+}
+
+// real-vs-real comparison of the clone route (id 0) with the direct twin (id 3) through the public API only
+func (x *emitExec) twinEvent(after, fin0, fin3 string) {
+	a, b := x.ems[0], x.ems[3]
+	if b == nil || !x.twinOK {
+		return
+	}
+	listing := func(e *asm.Emitter, hex bool) string {
+		var buf bytes.Buffer
+		guard(func() {
+			if hex {
+				e.WriteHexTo(&buf)
+			} else {
+				e.WriteTextTo(&buf)
+			}
+		})
+		return buf.String()
+	}
+	sa, sb := a.VerifState(), b.VerifState()
+	same := map[string]bool{
+		"code": bytes.Equal(a.Bytes(), b.Bytes()), "n": a.Len() == b.Len(), "addr": a.PC() == b.PC(),
+		"flags": sa.Flags == sb.Flags, "base": a.GetBase() == b.GetBase(), "labels": reflect.DeepEqual(sa.Labels, sb.Labels),
+		"final": (fin0 == "none") == (fin3 == "none"),
+	}
+	if sa.HasTarget {
+		same["hex"] = listing(a, true) == listing(b, true)
+		same["text"] = listing(a, false) == listing(b, false)
+	} else {
+		same["hex"], same["text"] = true, true
+	}
+	if fin0 != "" && (fin0 != "none" || fin3 != "none") {
+		// a failed Finalize patches a map-order dependent subset of the operands: only the outcome class is comparable,
+		// and the two emitters are not compared any further
+		same["code"], same["hex"], same["text"] = true, true, true
+		x.twinOK = false
+	}
+	x.emit(map[string]interface{}{"k": "twin", "id": 0, "after": after, "same": same, "fin": []string{fin0, fin3}})
 }
 
 func init() {
